@@ -184,6 +184,12 @@ def run():
     """Starts the program"""
     args = arg_parser_init()
     keep_original_ports = args.keep_original_ports
+
+    # start from a clean state: nothing of an earlier run() in the same process may leak into this one
+    del server_ports[2:]
+    keylog.clear()
+    sessions.clear()
+    quic_sessions.clear()
     portmap = get_port_map(args)
 
     set_logger(args)
